@@ -88,6 +88,14 @@ def main():
         bad["A"][0] += 2000
         v, _, _ = common.validate_traces("TraceReuse", "TraceReuse.cfg", [r, bad], wd)
         allok &= expect("TraceReuse", v, "ok:sound", "BAD:reported-transform-does-not-map")
+        # TraceReuse EllipseAgree: the recorded radii of the true quarter-turn image of a non-circular arc
+        # swapped back (= an ellipse that did not turn with the shape)
+        j = [x for x in c20.jobs_for("quick", _r.Random(0)) if x[4] == "egg->rot90 true-image" and x[2] == 0.01][0]
+        r = c20.job(j)
+        bad = copy.deepcopy(r)
+        bad["s2"]["radii"] = [[b, a] for a, b in bad["s2"]["radii"]]
+        v, _, _ = common.validate_traces("TraceReuse", "TraceReuse.cfg", [r, bad], wd)
+        allok &= expect("TraceReuse/EllipseAgree", v, "ok:sound", "BAD:reported-transform-does-not-turn")
         # TraceArc: one sample of the produced cubics moved off the ellipse
         from harness import c12, c13, structural
         r = c12.arc_job((5, (0, 0), (3, 4), (-4, 3), 0, 1, 1, 1, 0, 0, "exact"))
